@@ -38,7 +38,7 @@ PROP_MODULES = {
     "C09": ["c03", "c09"],
     "C02": ["c01", "c03", "c05", "c02"],
     "C19": ["c19"],
-    "C18": ["c18", "c07", "c06", "c17"],
+    "C18": ["c18", "c07", "c06", "c17", "c13"],
 }
 
 
